@@ -180,6 +180,8 @@ def run_case(case):
                     args += list(c.get("args", []))
                     if c.get("nest"):
                         args = [args]
+                    if c.get("unpicklable"):
+                        args = list(args) + [threading.Lock()]       # cannot be sent to the worker: pickling fails in the thread
                     kw = {}
 
                     def build(spec):
@@ -316,6 +318,7 @@ def run_case(case):
         "queues": final["queues"],
         "parked": final["parked"],
         "enabled_final": final["enabled_final"],
+        "blocked_kinds": sorted(ctl.blocked_kinds),
         "dir": final["dir"],
         "nfiles": final["nfiles"],
         "install_error": ctl.extra.get("install_error") or ctl.extra.get("capture_error"),
